@@ -3,7 +3,7 @@
    contain, is addressed by the NPath that quotes each name (escaping backslash and double quote). *)
 From Coq Require Import List Ascii Bool Arith Lia.
 Import ListNotations.
-Require Import Gen.
+From Dyn Require Import Gen.
 
 Definition bs : ascii := c 92.  Definition dq : ascii := c 34.  Definition dot : ascii := c 46.
 Definition enc (name : str) : str := flat_map (fun ch => if (ch =c bs) || (ch =c dq) then [bs; ch] else [ch]) name.
